@@ -124,6 +124,28 @@ def sites(seq:str, rule:str, exception=None):
     return out
 
 
+def _may_hold(alt, seq, i):
+    """ could alternative `alt` hold for the bond before seq[i] given suitable flanking
+    residues? constraints on positions outside seq count as satisfiable """
+    n = len(seq)
+    for rel, cons in alt.items():
+        p = i + rel if rel < 0 else i + rel - 1
+        if p < 0 or p >= n:
+            continue
+        c = seq[p]
+        if cons[0] == 'in' and c not in cons[1]:
+            return False
+        if cons[0] == 'not' and c in cons[1]:
+            return False
+    return True
+
+
+def possible_sites(seq:str, rule:str, exception=None):
+    """ internal bonds of a peptide that may be cleavage sites in some sequence context (an
+    upper bound of its missed cleavages; exceptions are ignored: they only remove sites) """
+    return [i for i in range(1, len(seq)) if any(_may_hold(a, seq, i) for a in RULES[rule])]
+
+
 @lru_cache(maxsize=200000)
 def mass(pep:str) -> float:
     return molecular_weight(pep, 'protein')
